@@ -677,17 +677,18 @@ def block_plan(ctx):
             n = dt.date(y, 12, 31).toordinal() - o + 1
             blocks.append(("block", 365, o, n))
     else:
-        starts = [1, 1595, 1895, 1995, 2015, 2095, 9989] + [rng.randint(1, 9980) for _ in range(2)]
+        starts = [1, 1580, 1690, 1880, 1900, 1980, 2000, 2020, 2090, 2390, 9980] + [rng.randint(1, 9975) for _ in range(4)]
         for f in REG:
             for y0 in starts:
-                blocks.append(("block", f, y0 * f, 10 * f))
-        dstarts = [1, MAXORD - 149, dt.date(1899, 12, 1).toordinal(), dt.date(1999, 12, 1).toordinal(),
-                   dt.date(2024, 2, 1).toordinal()] + [rng.randint(1, MAXORD - 400) for _ in range(2)]
+                blocks.append(("block", f, y0 * f, 20 * f))
+        dstarts = [1, MAXORD - 399, dt.date(1899, 10, 1).toordinal(), dt.date(1999, 10, 1).toordinal(),
+                   dt.date(2023, 10, 1).toordinal(), dt.date(2099, 10, 1).toordinal(), dt.date(399, 10, 1).toordinal()] + \
+                  [rng.randint(1, MAXORD - 400) for _ in range(5)]
         for o in dstarts:
-            blocks.append(("block", 365, o, 150))
-        for o in [1, MAXORD - 4999, dt.date(1899, 1, 1).toordinal(), dt.date(1999, 1, 1).toordinal(),
-                  rng.randint(1, MAXORD - 5000)]:
-            blocks.append(("ords", o, 5000))
+            blocks.append(("block", 365, o, 400))
+        for o in [1, MAXORD - 19999, dt.date(1899, 1, 1).toordinal(), dt.date(1999, 1, 1).toordinal()] + \
+                 [rng.randint(1, MAXORD - 20000) for _ in range(4)]:
+            blocks.append(("ords", o, 20000))
     return blocks
 
 
@@ -765,9 +766,9 @@ def correspondence(ctx) -> CorrResult:
     res = CorrResult()
     items = []          # (where, case, coq model term, impl obs)
     dist = {"period_ops": {}, "errors": {}, "span_actions": {}, "span_kinds": {}, "blocks": {}, "frequencies": {}}
-    n_p = ctx.scale(1500, 60000)
-    n_h = ctx.scale(400, 20000)
-    n_e = ctx.scale(100, 3000)
+    n_p = ctx.scale(4000, 80000)
+    n_h = ctx.scale(1500, 30000)
+    n_e = ctx.scale(300, 3000)
     nontrivial = set()
     for _ in range(n_p):
         c = gen_pcase(rng)
@@ -832,7 +833,7 @@ def correspondence(ctx) -> CorrResult:
     res.samples = [{"case": it[1], "model_call": it[2][:300], "impl": str(it[3])[:300]} for it in
                    (items[0], items[min(n_p, len(items) - 1)], items[-1])]
     res.notes.append(f"{covered} periods/ordinals covered by digests in {len(blocks)} blocks")
-    finish_cases(ctx, res, items, per_big=6 if ctx.thorough else 5)
+    finish_cases(ctx, res, items, per_small=500, per_big=6 if ctx.thorough else 3)
     return res
 
 
@@ -900,7 +901,7 @@ def falsify(ctx, hints):
     import irispie as ir
     rng = ctx.rng
     ck = Checker()
-    n = ctx.scale(250, 3000)
+    n = ctx.scale(600, 4000)
     SEGM = {1: 12, 2: 6, 4: 3, 12: 1}
     for it in range(n):
         f = rng.choice(FREQS)
@@ -963,7 +964,7 @@ def falsify(ctx, hints):
                            "e = p.shift('eopy'); assert e.to_python_date() == dt.date(a.year - 1, 12, 31) and e + 1 == s\n"
                            "t = p.shift('tty'); assert (t is None and p == s) or (p > s and t == p - 1)")
     # 6. spans
-    for it in range(ctx.scale(250, 3000)):
+    for it in range(ctx.scale(600, 4000)):
         f = rng.choice(FREQS)
         s = rand_spec(rng, freq=f, lo=1800, hi=2200, sloppy=0)
         c = rng.choice([1, 1, -1, 2, 3, -2, -3, 5, -7])
